@@ -167,6 +167,28 @@ def run(ctx):
                        {"id": tid, "line": int(l), "col": int(c), "item": name, "kind": kind, "verdict": v, "cst_context_of_inserted_name": ictx,
                         "same_complaint_for_a_nonexistent_name": vlib.unesc(base), "src": vlib.unesc(text)})
 
+    # ---------------------------------------------------------------- line-ending twins (differential, model-free)
+    TWN = [r for r in rows if r[0] == "TWN"]
+    twin_variants = {}
+    for r in TWN:
+        _, tid, variant, q, l, c, l2, c2, a, b, acc, text = (r + [""] * 12)[:12]
+        a, b = vlib.unesc(a), vlib.unesc(b)
+        twin_variants[variant] = twin_variants.get(variant, 0) + 1
+        if q == "hover":
+            kind = "hover-differs"
+        elif a not in ("-", "") and b in ("-", ""):
+            kind = "completions-lost"
+        elif a in ("-", "") and b not in ("-", ""):
+            kind = "completions-appear"
+        else:
+            kind = "completions-differ"
+        family = "line-terminator" if variant in ("crlf", "mixed-lf-crlf", "lone-cr", "no-final-newline", "blank-lines-top-crlf") else \
+                 "blank-lines" if variant.startswith("blank-lines") else "multibyte" if variant.startswith("multibyte") else variant
+        ctx.report({"oracle": "line-ending-twin", "family": family, "query": q, "kind": kind, "text": acc},
+                   f"{q} at ({l2},{c2}) of the `{variant}` twin answers `{b[:80]}` but `{a[:80]}` at the corresponding position ({l},{c}) of the original text",
+                   {"id": tid, "variant": variant, "query": q, "line": int(l2), "col": int(c2), "answer": b,
+                    "original_line": int(l), "original_col": int(c), "original_answer": a, "src": vlib.unesc(text)})
+
     ctx.violations.sort(key=lambda v: len(v[2].get("src", "")))
 
     # ---------------------------------------------------------------- coverage
@@ -219,6 +241,11 @@ def run(ctx):
                             "pipeline_corpus_programs_hovered": len({r[1] for r in HOV if r[1].startswith("hovercorpus:")}),
                             "late_resolved_programs_hovered": len({r[1] for r in HOV if r[1].startswith("late:")}),
                             "distinct_types_hovered": len({r[6] for r in HOV})},
+        "line_ending_twins": {"positions_compared": sum(int(stat(r, "twin_checked")) for r in T),
+                              "texts": sum(1 for r in T if int(stat(r, "twin_checked")) > 0),
+                              "differences": len(TWN), "differences_by_variant": twin_variants,
+                              "variants": "crlf, blank-lines-top (all full/mutation/trigger-prefix texts); mixed-lf-crlf, blank-lines-top-crlf, blank-lines-middle, lone-cr, no-final-newline, tab-indent, multibyte-line-above, multibyte-same-line (whole programs)",
+                              "crlf_or_mixed_texts_through_all_oracles": sum(1 for r in T if r[1].endswith(":crlf") or r[1].endswith(":mixed"))},
         "completion_validity": {"items_checked": n_cmp, "ok": n_cmp_ok, "skipped": skip_kinds, "by_kind": cmp_kinds},
         "samples": samples,
         "impl_oracle_failures": len(ctx.violations), "model_diffs": len([b for b in ctx.broken_ties if b[0] == "position-mapping correspondence"]),
